@@ -1,4 +1,6 @@
-SPECIFICATION Spec
+CONSTANTS Thr = {1, 2, 3, 4} Plans = {"a"} Scratch = "perCall" Calls = 8
+SPECIFICATION TSpec
+INVARIANTS ResultPreserved RaceFree
 CONSTRAINT Furthest
 POSTCONDITION Accepted
 CHECK_DEADLOCK FALSE
